@@ -177,27 +177,42 @@ pub fn spec() -> PropSpec<Case> {
         proptest::collection::vec(raw_import(), 1..=5),
         any::<bool>(),
         prop_oneof![3 => Just(0u8), 1 => Just(1u8), 1 => Just(2u8)],
+        proptest::option::weighted(0.35, (any::<u16>(), any::<u16>(), 0..4u8)),
       )
-        .prop_map(|(registry, main, npm_resolver, kind)| Case {
-          registry,
-          main: main
+        .prop_map(|(registry, main, npm_resolver, kind, repeat)| {
+          let mut raws: Vec<RawImport> = main
             .iter()
             .map(|r| {
               let mut r = r.clone();
               if r.kind == 0 {
                 r.kind = 1;
               }
-              item_of(&r, None)
+              r
             })
-            .collect(),
-          npm_resolver,
-          kind,
+            .collect();
+          // the same requirement once more, for another export of the
+          // package, after everything else (one requirement, two specifiers)
+          if let Some((which, sub, form)) = repeat {
+            let jsr: Vec<usize> = raws.iter().enumerate().filter(|(_, r)| r.kind == 1).map(|(i, _)| i).collect();
+            if !jsr.is_empty() {
+              let mut again = raws[jsr[idx(which, jsr.len())]].clone();
+              again.c = sub;
+              again.form = form;
+              raws.push(again);
+            }
+          }
+          Case {
+            registry,
+            main: raws.iter().map(|r| item_of(r, None)).collect(),
+            npm_resolver,
+            kind,
+          }
         })
         .boxed()
     },
     check,
     cases: |tier| tier.pick(40_000, 800_000),
-    rule: "registries of 1-4 packages (names that are prefixes of one another: @s/a, @s/ab, @s/b, @t/a) x 1-3 versions (incl. a prerelease), exports as a string or as a map with 1-3 entries and a non-string value, files importing one another by relative path, by jsr: requirement (root and sub-path exports, missing exports, unsatisfiable requirements), by npm: and by https registry URL, statically / dynamically / as types; a root program importing 1-5 jsr:/npm:/registry URLs; all three graph kinds; non-trivial = a package module imports another package, or an export map with >= 2 entries is used, or an unknown export is requested; distinct = distinct case JSON",
+    rule: "registries of 1-4 packages (names that are prefixes of one another: @s/a, @s/ab, @s/b, @t/a) x 1-3 versions (incl. a prerelease), exports as a string or as a map with 1-3 entries and a non-string value, files importing one another by relative path, by jsr: requirement (root and sub-path exports, missing exports, unsatisfiable requirements), by npm: and by https registry URL, statically / dynamically / as types; a root program importing 1-5 jsr:/npm:/registry URLs, in a third of the cases followed by one of its jsr: requirements once more under another export; all three graph kinds; non-trivial = a package module imports another package, or an export map with >= 2 entries is used, or an unknown export is requested; distinct = distinct case JSON",
     assumptions: &[
       "the dependency sets are computed from the graph's recorded dependencies of the modules of each package (C01 validates those against the sources)",
       "deno_semver parsing of jsr:/npm: specifiers is trusted",
